@@ -73,7 +73,7 @@ def gen_dir(rng, n=None, junk=False):
                 b = b'\x00' + bytes(rng.randrange(256) for _ in range(rng.randrange(1, 200)))
             elif kind == 'badid':
                 bb = bytearray(base)
-                bb[rng.choice([0, 1])] ^= 0x20
+                bb[rng.choice([0, 1, 48, 49])] ^= 0x20
                 b = bytes(bb)
             else:
                 b = b'hello, not a PEL\n'
@@ -345,9 +345,13 @@ class H12(_Harness):
         p = os.path.join(d, "single.pel")
         with open(p, 'wb') as fh:
             fh.write(data)
-        fault = rng.choice([None, None, {"kind": "stdout", "nth": 1}])
-        r = run_cli(['-f', p, '-c'], fault=fault)
-        printed = jloads(r['stdout']) is not None and r['stdout'].strip() != ''
+        hexm = rng.random() < 0.4
+        fault = rng.choice([None, None, {"kind": "stdout", "nth": 1}, {"kind": "stdout", "nth": rng.choice([2, 3, 5])}])
+        r = run_cli(['-f', p, '-c'] + (['-x'] if hexm else []), fault=fault)
+        if hexm:
+            printed = 'PEL End' in r['stdout']
+        else:
+            printed = jloads(r['stdout']) is not None and r['stdout'].strip() != ''
         still = os.path.exists(p) and open(p, 'rb').read() == data
         res.append(("--file --clean: the file is removed only after its document was printed; otherwise it is still there, unmodified",
                     still or printed, dict(kind=kind, fault=fault, code=r['code'], out=r['stdout'][:80], err=r['stderr'][:200])))
@@ -394,3 +398,75 @@ class H05(_Harness):
 
 
 UNITS = [H08, H09, H10, H11, H12, H05]
+
+
+class H07(_Harness):
+    prop = "C07"
+    name = "CLI: selection options vs the documented rule on generated directories (bounded)"
+
+    def scenario(self, rng, d):
+        from contracts.select import spec_select
+        from contracts.common import T
+        files, sub, _ = gen_dir(rng, n=rng.randrange(2, 6))
+        write_tree(d, files)
+        opts = sel_options(rng)
+        cfg = dict(serviceable='-s' in opts, non_serviceable='-N' in opts, hidden='-H' in opts, critSysTerm='-t' in opts,
+                   only='-O' in opts, every_pel='-E' in opts)
+        groups = [T('severityGroupValues')[g] for g in opts[opts.index('-S') + 1:]] if '-S' in opts else []
+        want = []
+        for f in sorted(files):
+            b = files[f]
+            sev, flags = b[48 + 8 + 2], int.from_bytes(b[48 + 8 + 10:48 + 8 + 12], 'big')
+            if spec_select(sev, flags, cfg, groups):
+                want.append("0x%08X" % int.from_bytes(b[44:48], 'big'))
+        res = []
+        l = jloads(run_cli(['-p', d, '-l'] + opts)['stdout'])
+        n = jloads(run_cli(['-p', d, '-n'] + opts)['stdout'])
+        res.append(("-l lists exactly the PELs the documented rule selects (several PELs in one run)", l is not None and list(l.keys()) == want,
+                    dict(opts=opts, got=l and list(l), want=want)))
+        res.append(("-n counts exactly those", n is not None and n.get("Number of PELs found") == len(want), dict(opts=opts, n=n, want=len(want))))
+        return res
+
+
+UNITS = [H08, H09, H10, H11, H12, H05, H07]
+
+
+class H13(_Harness):
+    prop = "C13"
+    name = "CLI: --hex displays reproduce each file's bytes between the markers, also for large PELs (bounded)"
+
+    def scenario(self, rng, d):
+        from pel.hexdump import parse
+        from contracts.pelgen import gen_ph, gen_uh, hdr
+        files, sub, _ = gen_dir(rng, n=rng.randrange(1, 3))
+        # one large PEL (> 16 KiB): many user-data sections
+        secs = [hdr(b'UD', 8 + 4000, comp=0x1234) + bytes(rng.randrange(256) for _ in range(4000)) for _ in range(rng.randrange(5, 8))]
+        big = gen_ph(rng, 2 + len(secs), eid=0x50000AAA) + gen_uh(rng, sev=0x40, flags=0xA800) + b''.join(secs)
+        files["zz_big_50000AAA"] = big
+        write_tree(d, files)
+        res = []
+
+        def blocks(out):
+            cur, outb = None, []
+            for ln in out.split("\n"):
+                if ln.startswith("-------------- PEL Begin"):
+                    cur = []
+                elif ln.startswith("-------------- PEL End"):
+                    outb.append(bytes(parse(cur)))
+                    cur = None
+                elif cur is not None:
+                    cur.append(ln)
+            return outb
+        r = run_cli(['-p', d, '-a', '-x', '-E'])
+        want = [files[f] for f in sorted(files)]
+        res.append(("-a -x: one delimited dump per PEL, each reproducing exactly the file's bytes", blocks(r['stdout']) == want,
+                    dict(n=len(blocks(r['stdout'])), sizes=[len(b) for b in blocks(r['stdout'])], want=[len(w) for w in want])))
+        f = rng.choice(sorted(files))
+        r = run_cli(['-f', os.path.join(d, f), '-x', '-E'])
+        res.append(("-f -x reproduces the file's bytes", blocks(r['stdout']) == [files[f]], dict(f=f)))
+        r = run_cli(['-p', d, '-l', '-x', '-E'])
+        res.append(("-l -x reproduces every selected file's bytes", blocks(r['stdout']) == want, dict()))
+        return res
+
+
+UNITS = [H08, H09, H10, H11, H12, H05, H07, H13]
